@@ -25,6 +25,8 @@ type C04Params struct {
 	// FirstOnly: only the cookie-less first ClientHello is rewritten (it is outside the
 	// Finished hash; the second ClientHello must equal it, so the server must notice)
 	FirstOnly bool `json:"first_only,omitempty"`
+	// SecondOnly: only the ClientHello that echoes the cookie is rewritten; the first one arrives intact
+	SecondOnly bool `json:"second_only,omitempty"`
 }
 
 type c04Target struct {
@@ -96,6 +98,8 @@ func c04Gen(r *rand.Rand, tier string, idx int) any {
 	p.Arg = r.IntN(1 << 20)
 	if p.Type == HTClientHello && p.HV && r.IntN(3) == 0 {
 		p.FirstOnly = true
+	} else if p.Type == HTClientHello && p.HV && r.IntN(3) == 0 {
+		p.SecondOnly = true
 	}
 
 	return p
@@ -369,10 +373,13 @@ func c04Run(rc *RunCtx, params any) {
 				fb := f.Body
 				total, off := int(f.Length), int(f.Off)
 				skip := false
-				if p.FirstOnly && int(f.Type) == HTClientHello && f.FLen == f.Length {
+				if (p.FirstOnly || p.SecondOnly) && int(f.Type) == HTClientHello && f.FLen == f.Length {
 					if h, herr := ParseClientHello(f.Body); herr == nil {
 						_, has13Cookie := h.Ext(ExtCookie13)
 						skip = len(h.Cookie) > 0 || has13Cookie
+						if p.SecondOnly {
+							skip = !skip
+						}
 					}
 				}
 				if int(f.Type) == p.Type && !skip {
@@ -439,6 +446,9 @@ func c04Run(rc *RunCtx, params any) {
 		scope := ""
 		if p.FirstOnly {
 			scope = ":first-hello-only"
+		}
+		if p.SecondOnly {
+			scope = ":second-hello-only"
 		}
 		mutName := p.Mut
 		if p.Mut == "body-bit" && p.Type == HTClientHello && lastCH != nil {
